@@ -155,6 +155,8 @@ def check_property(prop: str, tier: str, seed: int, only: str | None) -> int:
         # a function under contract that the generator could not take this time: not a violation,
         # but nothing is proved about it in this run (listed in the evidence as well)
         print(f"UNDECIDED: property={prop} {str(item)[:300]}")
+    for item in ded.get("undecided", [])[:8]:
+        print(f"UNDECIDED: property={prop} {item.get('obligation')}: {str(item.get('detail'))[:200]}")
     for err in errors:
         print("CHECKER-ERROR:", err, file=sys.stderr)
 
